@@ -417,6 +417,28 @@ def boolwalk(root: S, bool_cells: Iterable[str] = ()) -> List[Leaf]:
             for i, k in enumerate(kids):
                 go(k, sign, path + ((s.id, e, i),), reduced, part, guards, d)
             return
+        if o == "meth" and a[1] in ("add_", "add", "logical_or_", "bitwise_or", "bitwise_or_") and len(a) == 3:
+            # accumulation of exclusion terms on a boolean mask: base | term
+            e = eff("or", sign)
+            go(a[0], sign, path + ((s.id, e, 0),), reduced, part, guards, d)
+            go(a[2], sign, path + ((s.id, e, 1),), reduced, part, guards, d)
+            return
+        if o == "meth" and a[1] in ("mul_", "mul", "logical_and_", "bitwise_and", "bitwise_and_") and len(a) == 3:
+            e = eff("and", sign)
+            go(a[0], sign, path + ((s.id, e, 0),), reduced, part, guards, d)
+            go(a[2], sign, path + ((s.id, e, 1),), reduced, part, guards, d)
+            return
+        if fn in ("torch.full", "torch.zeros", "torch.ones", "torch.full_like", "torch.zeros_like", "torch.ones_like"):
+            out.append(Leaf(mk("constfill", fn, *[x for x in a[2:] if is_const(x)]), sign, path, reduced, part, guards))
+            return
+        if fn in ("einops.rearrange", "einops.reduce", "einops.repeat") and len(a) >= 2:
+            red = reduced or fn == "einops.reduce"
+            if fn == "einops.reduce":
+                how = [x for x in a[3:] if is_const(x)]
+                kind = how[0].args[0] if how else "?"
+                e = eff("or" if kind in ("any", "max", "sum") else "and", sign)
+                return go(a[1], sign, path + ((s.id, e, 0),), True, part, guards, d)
+            return go(a[1], sign, path, red, part + (("rearrange", a[2].args[0] if is_const(a[2]) else "?"),), guards, d)
         if fn in ("torch.cat", "torch.concat", "torch.stack") and len(a) >= 2:
             items = _seq_items(a[1])
             if items is not None:
